@@ -53,6 +53,9 @@ def oracle(pystog, case, res):
     _, _, e2 = F.call_ft(pystog, case, yin=y2)
     if not np.array_equal(e2, eo):
         return "uncertainty changes with the data values"
+    _, _, e0 = F.call_ft(pystog, case, yin=[0.0] * n)       # a signal that vanishes identically still has its uncertainties
+    if not np.array_equal(e0, eo):
+        return "uncertainty changes when the data values are all zero"
     if case["dy"] is None:
         return "uncertainty not zero although none was given" if (eo != 0).any() else None
     if (eo < 0).any() or not np.isfinite(eo).all():
